@@ -197,7 +197,21 @@ def predict(program, cfg):
             p.ambiguous_hooks = True
         if child and not any(formula_ok(cfg, eff_tags(i)) and name_ok(cfg, i["name"]) for i in insts_inside):
             p.ambiguous_hooks = True       # selected by tags, de-selected by name: container hooks open
-        return own_match or child
+        # an outline (template) whose own plain tags + ancestors satisfy the expression although none of its rows
+        # does (the examples tags de-select them): same open question one level down
+        outline_match = False
+        seen = set()
+        for i in insts_inside:
+            if i.get("outline") and id(i["node"]) not in seen:
+                seen.add(id(i["node"]))
+                tpl = set(t for t in i["node"]["tags"] if not ("<" in t and ">" in t))
+                for a in i["anc_tags"]:
+                    tpl.update(t for t in a if not ("<" in t and ">" in t))
+                if formula_ok(cfg, tpl):
+                    outline_match = True
+        if outline_match and not (own_match or child):
+            p.ambiguous_hooks = True
+        return own_match or child or outline_match
 
     for feature in program["features"]:
         insts = list(iter_scenario_instances(feature))
